@@ -150,18 +150,19 @@ def pelt_l2_end_to_end_stream(ctx, count):
                      {"what": "float-end-to-end-mismatch", "detector": "PELT"})
 
 
-def _from_data(ctx, case_type, terms2, metas2, what, tag):
+def _from_data(ctx, case_type, terms2, metas2, what, tag, premise=True):
     """the univariate CUSUM cases once more WITHOUT the score table: Coq computes the scores with the binary64 kernel twin cusum_F from the data (Check/FloatRunCheck.v) and must
     reproduce the detector; the premise cusum_trace_ok of the kernel's refinement theorem is evaluated on every cut the detector read"""
     if not terms2:
         return
     for _ in terms2:
         ctx.count("float_stream", "from-data:" + what)
-    noprem = coq_bad_cases(ctx.cid, HEADER_RUN, case_type, case_type.replace("_case", "_case_premise"), terms2, shard=30, tag=tag + "prem")
-    ctx.notes[f"binary64_from_data_premise({what})"] = f"cusum_trace_ok holds on every cut read in {len(terms2) - len(noprem)} of {len(terms2)} cases"
+    if premise:
+        noprem = coq_bad_cases(ctx.cid, HEADER_RUN, case_type, case_type.replace("_case", "_case_premise"), terms2, shard=30, tag=tag + "prem")
+        ctx.notes[f"binary64_from_data_premise({what})"] = f"cusum_trace_ok holds on every cut read in {len(terms2) - len(noprem)} of {len(terms2)} cases"
     for i in coq_bad_cases(ctx.cid, HEADER_RUN, case_type, case_type.replace("_case", "_case_ok"), terms2, shard=30, tag=tag)[:20]:
         mt = metas2[i]
-        ctx.mismatch(f"{what} on one float column (n={mt['n']}, threshold={mt['threshold']!r}): the binary64 kernel twin cusum_F followed by the generic search loop on primitive floats "
+        ctx.mismatch(f"{what} on one float column (n={mt['n']}, threshold={mt['threshold']!r}): the binary64 kernel twin followed by the generic search loop on primitive floats "
                      f"does not reproduce the implementation from the DATA (changepoints {mt['impl_changepoints']} / scores bit for bit)", mt, {"what": "float-end-to-end-mismatch", "detector": what})
 
 
@@ -299,6 +300,7 @@ def cbs_float_stream(ctx, count):
     from skchange.costs import GaussianVarCost, L2Cost
     rng = ctx.rng
     terms, metas = [], []
+    terms2, metas2 = [], []
     for it in range(count):
         name, mk, ms = [("LocalAnomalyScore(L2Cost)", lambda: LocalAnomalyScore(L2Cost()), 1),
                         ("LocalAnomalyScore(GaussianVarCost)", lambda: LocalAnomalyScore(GaussianVarCost()), 2)][it % 2]
@@ -336,9 +338,14 @@ def cbs_float_stream(ctx, count):
         metas.append({"detector": "CircularBinarySegmentation", "score": name, "min_segment_length": m, "max_interval_length": M, "n": n, "p": p, "data": kind,
                       "X": Xn.tolist(), "threshold": thr, "impl_anomalies": [list(t) for t in anoms], "intervals": [list(t) for t in ivs],
                       "_rows": rows, "_inner": inner, "_max": [float(v) for v in tabl["score"]]})
+        if name == "LocalAnomalyScore(L2Cost)" and p == 1:
+            terms2.append("{| c2_xs := %s; c2_m := %d%%nat; c2_thr := %s; c2_ivs := %s; c2_anoms := %s; c2_inner := %s; c2_max := %s |}"
+                          % (flist(Xn[:, 0]), m, fl(thr), pairs_nat(ivs), pairs_nat(anoms), pairs_nat(inner), flist([float(v) for v in tabl["score"]])))
+            metas2.append(dict({k_: v_ for k_, v_ in metas[-1].items() if not k_.startswith("_")}, impl_changepoints=[list(t) for t in anoms]))
         ctx.case({"float": "cbs", "it": it, "n": n, "m": m, "score": name, "x0": float(Xn[0, 0])}, nontrivial=len(anoms) > 0,
                  sample={"stream": "binary64-table CircularBinarySegmentation", "score": name, "n": n, "m": m, "n_intervals": len(ivs), "impl_anomalies": anoms})
         ctx.count("float_stream", "cbs:" + name)
+    _from_data(ctx, "fcbs2_case", terms2, metas2, "CircularBinarySegmentation(LocalAnomalyScore(L2Cost))", "fcbs2", premise=False)
     bad = coq_bad_cases(ctx.cid, HEADER, "fcbs_case", "fcbs_any_case_ok", terms, shard=20, tag="fcbs")
     _spec_all(ctx, metas, bad, lambda mt: _cbs_spec(mt, mt["_rows"], mt["_inner"], mt["_max"]), "CircularBinarySegmentation",
               lambda mt: f"CircularBinarySegmentation({mt['score']}) on float data (n={mt['n']}, m={mt['min_segment_length']}, p={mt['p']}, {mt['data']})")
